@@ -1,17 +1,25 @@
 """C01 - 32-bit instructions encode exactly as the RISC-V specification defines."""
 from contracts import encoders as E
+from props import common
 
 LEVEL = 'proof'
 
 
 def build(ctx):
     E.obligations_table_distinct(ctx, 'C01')
-    ctx.task('contracts.encoders:task_lookup_register')
-    for m in E.mnemonics_from_source(ctx):
-        if m.startswith('c.'):
-            continue
-        ctx.task('contracts.encoders:task_encoder', m)
+    common.encoder_tasks(ctx, lambda m: not m.startswith('c.'))
+    ctx.task('contracts.emit:task_emit_pass', 'resolve_instructions')
+    ctx.trust(common.TRUST_BOUNDED)
+
+
+def bounded(ctx):
+    ctx.task('bounded.tasks:encoder_text_task', 'base', ['accept', 'decode', 'size'], ['x', 'abi', 'num'])
 
 
 def explanation(ctx):
-    return 'wip'
+    return ('PROVED for all operand tuples (no enumeration): per mnemonic, the real encoder bound by the real partial line returns '
+            'exactly on the legal operand set (unbounded integers, INT back end) and its result decodes under the manual to the same '
+            'mnemonic, registers, immediate, fence sets, aq/rl, CSR field (BV back end); injectivity per mnemonic; manual rows pairwise '
+            'distinguishable; lookup_register body against its contract (symbolic ints + exhaustive over the REGISTERS literal); '
+            'resolve_instructions passes the fields in order to the encoder and packs <I. BOUNDED: text front end (945 one-line '
+            'programs per spelling) through lex/parse.')
